@@ -162,8 +162,7 @@ class Ctx:
             cmd += extra
         cmd.append(module + ".tla")
         e = dict(os.environ)
-        if java_opts:
-            e["JAVA_TOOL_OPTIONS"] = java_opts
+        e["JAVA_TOOL_OPTIONS"] = ("-Xmx%s " % os.environ.get("VERIF_TLC_HEAP", "8g")) + (java_opts or "")
         if env:
             e.update(env)
         t = time.time()
